@@ -46,9 +46,78 @@ class Stats:
             self.samples.append({"case": s, "labels": res["labels"], "nontrivial": res["nontrivial"]})
 
 
+CUR_PATH = None
+SKIP = set()
+ABORTED = []
+
+
+class Probe:
+    """Persistent sacrificial child process for cases that may abort in native code."""
+
+    def __init__(self, pid):
+        self.pid = pid
+        self.proc = None
+
+    def start(self):
+        import subprocess
+
+        self.proc = subprocess.Popen(
+            [sys.executable, "-m", "gv.probe", self.pid], stdin=subprocess.PIPE, stdout=subprocess.PIPE,
+            stderr=subprocess.DEVNULL, text=True, bufsize=1,
+        )
+        line = self.proc.stdout.readline()
+        if not line.startswith("READY"):
+            raise RuntimeError("probe child did not start")
+
+    def run(self, case):
+        from gv.common import result, HarnessError
+
+        if self.proc is None or self.proc.poll() is not None:
+            self.start()
+        try:
+            self.proc.stdin.write(json.dumps(case, default=str) + "\n")
+            self.proc.stdin.flush()
+            line = self.proc.stdout.readline()
+        except (BrokenPipeError, OSError):
+            line = ""
+        if line.startswith("RES "):
+            return json.loads(line[4:])
+        if line.startswith("ERR "):
+            raise HarnessError("probe child: " + line[4:])
+        rc = self.proc.wait()
+        self.proc = None
+        ABORTED.append({"returncode": rc, "case": case})
+        return result(None, False, "native-abort", ["native_abort_excluded"])
+
+    def close(self):
+        if self.proc is not None and self.proc.poll() is None:
+            self.proc.stdin.close()
+            self.proc.wait()
+
+
+PROBE = None
+
+
+def run_maybe_probed(mod, case):
+    global PROBE
+    if hasattr(mod, "is_risky") and mod.is_risky(case):
+        if PROBE is None:
+            PROBE = Probe(mod.PID)
+        return PROBE.run(case)
+    return run_classified(mod, case)
+
+
 def run_classified(mod, case):
     """run_case with library exceptions turned into violations, harness errors re-raised."""
     from gv.common import classify_exception, result, viol, HarnessError
+
+    if CUR_PATH is not None:  # so that a hard crash (abort inside XLA) can be attributed to a case
+        from gv.common import case_hash
+
+        if case_hash(case) in SKIP:
+            return result(None, False, "skipped-hard-crash", ["skipped_after_process_abort"])
+        with open(CUR_PATH, "w") as f:
+            json.dump(case, f, default=str)
 
     try:
         return mod.run_case(case)
@@ -64,6 +133,12 @@ def run_classified(mod, case):
 
 def work(pid, tier, seed, shard, nshards, outpath):
     t0 = time.monotonic()
+    global CUR_PATH
+    CUR_PATH = outpath + ".cur"
+    skipfile = outpath + ".skip"
+    if os.path.exists(skipfile):
+        with open(skipfile) as f:
+            SKIP.update(l.strip() for l in f if l.strip())
     import hypothesis
     from hypothesis import HealthCheck, Phase, given, settings, strategies as st
 
@@ -102,7 +177,7 @@ def work(pid, tier, seed, shard, nshards, outpath):
             if time.monotonic() - t0 > budget:
                 stats.skipped_budget += 1
                 continue
-            res = run_classified(mod, case)
+            res = run_maybe_probed(mod, case)
             stats.exhaustive_cases += 1
             v = handle(case, res, "enumerate")
             if v is not None and v["key"] not in stats.violations:
@@ -141,7 +216,7 @@ def work(pid, tier, seed, shard, nshards, outpath):
                 stats.skipped_budget += 1
                 return
             case = mod.draw_case(data, tier)
-            res = run_classified(mod, case)
+            res = run_maybe_probed(mod, case)
             if state["fail_start"] is None:
                 stats.generated += 1
             v = handle(case, res, "generate")
@@ -182,8 +257,11 @@ def work(pid, tier, seed, shard, nshards, outpath):
         "skipped_budget": stats.skipped_budget,
         "exhaustive_cases": stats.exhaustive_cases,
         "generated": stats.generated,
+        "native_aborts": ABORTED,
         "wall_s": time.monotonic() - t0,
     }
+    if PROBE is not None:
+        PROBE.close()
     tmp = outpath + ".tmp"
     with open(tmp, "w") as f:
         json.dump(out, f, default=str)
